@@ -4,6 +4,13 @@ from ..frames.local import to_local
 from ..frames.frames import get_frame
 
 
+def _rebuild(cls, values):
+    """Unpickling helper (see Cov.__reduce__)"""
+    obj = np.ndarray.__new__(cls, (6, 6), buffer=np.array(values, dtype=float), dtype=float)
+    obj._data = {}
+    return obj
+
+
 class Cov(np.ndarray):
     """Covariance matrix"""
 
@@ -68,6 +75,16 @@ class Cov(np.ndarray):
             return
 
         self._data = obj._data.copy()
+
+    def __reduce__(self):
+        """For pickling. The array is rebuilt on a buffer (see StateVector.__reduce__)"""
+        state = {"data": self._data, "orb_frame": self._orb_frame}
+        return _rebuild, (self.__class__, np.array(self)), state
+
+    def __setstate__(self, state):
+        """For pickling"""
+        self._data = state["data"]
+        self._orb_frame = state["orb_frame"]
 
     @property
     def frame(self):
